@@ -244,7 +244,13 @@ func (p *Element) SetBytesUncompressed(buf []byte, trusted bool) error {
 	}
 
 	var x fp.Element
-	x.SetBytes(buf[:coordinateSize])
+	if trusted {
+		x.SetBytes(buf[:coordinateSize])
+	} else if err := x.SetBytesCanonical(buf[:coordinateSize]); err != nil {
+		// untrusted input must carry the canonical (< p) encoding of x,
+		// otherwise x and x+p would be two accepted encodings of one point
+		return fmt.Errorf("invalid uncompressed point: %s", err)
+	}
 
 	var y fp.Element
 	// point in curve & subgroup check
